@@ -344,6 +344,9 @@ func init() {
 	// not over or / any whose FIRST operand looks at optional data that is absent: the true operand further on still counts
 	policyCatalogue["[0 2]"] = append(policyCatalogue["[0 2]"], `["not", ["any", ".l", ["or", [["==", ".zz?", 1], ["==", ".", 1]]]]]`)
 	policyCatalogue["[0 2 3]"] = append(policyCatalogue["[0 2 3]"], `["not", ["or", [["==", ".y?", 3], ["==", ".x", 1]]]]`)
+	// an index that reaches before the start or past the end of a list names nothing (it is not clamped like a slice bound)
+	policyCatalogue["[]"] = append(policyCatalogue["[]"], `[">=", ".l[-3]", 0]`, `[">=", ".l[2]", 0]`, `["not", [">=", ".l[-3]", 0]]`, `[">=", ".e[-1]", 0]`, `[">=", ".e[0]", 0]`,
+		`["any", ".l[-3]", [">=", ".", 0]]`, `["==", ".l[-99999]", 0]`, `["and", [[">=", ".l[-3]", 0], ["==", ".zz?", 1]]]`)
 }
 
 // catalogueSelfCheck evaluates every catalogue statement on every argument point with the real
